@@ -48,6 +48,9 @@ type valueSpec struct {
 	Norm      func(any) any
 	// AnyNameID: the name and the ID of the response are goa's choice (errors that are no ServiceError).
 	AnyNameID bool
+	// Deep: an error value outside the quick menus (rarer texts and constructions). Thorough explores
+	// these in a product of their own (P4) instead of multiplying the full header menus by them.
+	Deep bool
 
 	wants []string // canon of every acceptable original (filled by allValues)
 }
